@@ -14,11 +14,9 @@ Definition sop_of (o : op) : sop :=
   | OResize _ | OShrink | OAlign _ => SOther
   end.
 
-(* what the C++ signatures already guarantee (udim_t arguments are not negative), and slice
-   offsets >= 0 (a negative offset is refused by memory::slice after fixes/C02-2) *)
+(* what the C++ signatures already guarantee: udim_t arguments are not negative *)
 Definition op_ok (o : op) : Prop :=
   match o with
-  | OSlice _ _ off _ => 0 <= off
   | OResize b => 0 <= b
   | OAlign a => 0 <= a
   | _ => True
